@@ -207,16 +207,16 @@ UNDER_CONSTRUCTION = 'check not yet built in this round (planned in DESIGN.md §
 EXTRA = {
     'C01': ' Further structural clauses (DESIGN 3a): no C cipher routine reads through output-derived pointers in more places than the reference tree (O1); '
            'copies of one routine within a file agree (X5); field-by-field record copies are index/field consistent (X4); C functions named for a key size / '
-           'direction call only routines of that key size / direction (K1). Element-insert ladders that assemble IV / nonce vectors keep the index/offset relation of their neighbours (N6); no computed vector value is stored twice unchanged to adjacent places (W6). job->src is used with its start offset (O2).',
-    'C02': ' Further clauses (DESIGN 3a): wrapper-constant matrix of the per-architecture hash entry points (X3), copy siblings (X5), field copies (X4). Insert ladders (N6); no computed vector value is stored twice unchanged to adjacent places - the second part of a split digest / tag store comes from another value (W6). Assembly padding: the length field goes into the block holding the 0x80 marker exactly when it fits behind it (P6).',
-    'C03': ' Further clause (DESIGN 3a): key-size / direction tokens of C wrappers and manager slots agree with their callers (K1). Insert ladders of the CCM / GCM / ChaCha20-Poly1305 units (N6, decides the nonce byte placement of CCM block B0); split stores (W6).',
+           'direction call only routines of that key size / direction (K1). Element-insert ladders that assemble IV / nonce vectors keep the index/offset relation of their neighbours (N6); no computed vector value is stored twice unchanged to adjacent places (W6). job->src is used with its start offset (O2). Byte-order typestate: no vector register is read where it can arrive both byte-reflected and not (N7).',
+    'C02': ' Further clauses (DESIGN 3a): wrapper-constant matrix of the per-architecture hash entry points (X3), copy siblings (X5), field copies (X4). Insert ladders (N6); no computed vector value is stored twice unchanged to adjacent places - the second part of a split digest / tag store comes from another value (W6). Assembly padding: the length field goes into the block holding the 0x80 marker exactly when it fits behind it (P6). Byte-order typestate of vector registers (N7).',
+    'C03': ' Further clause (DESIGN 3a): key-size / direction tokens of C wrappers and manager slots agree with their callers (K1). Insert ladders of the CCM / GCM / ChaCha20-Poly1305 units (N6, decides the nonce byte placement of CCM block B0); split stores (W6). Byte-order typestate of vector registers (N7).',
     'C04': ' Further clauses (DESIGN 3a): lane association in 262 assembled multi-buffer routines - a vector stored through the pointer of lane m holds data of '
            'lane m only, followed through the transposition networks (unpack / shuffle / insert / extract modelled exactly on 32-bit slots, everything else '
            'element-wise; unknown values never reported), and a per-lane pointer is written back into the array element it came from (V1/V2; decides K16).',
     'C05': ' Further clauses (DESIGN 3a): a job is stamped BEING_PROCESSED on every path to the stage dispatch (Q7); contiguous-slot counts come from the ring '
-           'offset they advance (Q9); the parameter guards of the queue and burst functions are those of the reference tree (Q8). A queue function that owns the empty-marker normalisation reaches every return through it or through a pure emptiness test (Q10).',
+           'offset they advance (Q9); the parameter guards of the queue and burst functions are those of the reference tree (Q8). A queue function that owns the empty-marker normalisation reaches every return through it or through a pure emptiness test (Q10). A flush handler that is given the job itself (custom stages) hands it back only if that stage was still to do (T11, decides K18).',
     'C06': ' Further clauses (DESIGN 3a): a stage handler is looked up from the suite id of the very job it is applied to, in the same expression (T7); '
-           'assembly ORs single stage bits into job->status (J2); the burst guards, stale suite id included, are those of the reference tree (T9).',
+           'assembly ORs single stage bits into job->status (J2); the burst guards, stale suite id included, are those of the reference tree (T9). A flush handler that is given the job itself (custom stages) hands it back only if that stage was still to do (T11, decides K18).',
     'C07': ' A second structural clause of in-place == out-of-place (DESIGN 3a, O1): no C routine reads its data through output-derived pointers in more '
            'places than on the reference tree; C digest writers copy the word count of the selected SHA variant (P5). Assembly tail copies of the last K bytes of a buffer are admitted only from length >= K (W4).',
     'C08': ' Further clauses (DESIGN 3a): per-architecture versions of one function agree (X6); wrapper constants fit the file x algorithm matrix (X3); each '
@@ -232,7 +232,7 @@ EXTRA = {
     'C15': ' Further clauses (DESIGN 3a): no manager is reset twice and the variants of one architecture reset the same managers (I1); every architecture init '
            'resets the error code before dispatching to a type init (I7); the per-architecture init functions agree (X6).',
     'C16': ' Further clause (DESIGN 3a): each variant records its own architecture in used_arch (P5).',
-    'C20': ' Further clause (DESIGN 3a): each row of a self-test vector table carries one size token and a loop over one table reads no other (F7).',
+    'C20': ' Further clause (DESIGN 3a): each row of a self-test vector table carries one size token and a loop over one table reads no other (F7). Once IMB_ERR_SELFTEST is recorded nothing that resets the error code runs before the init returns (F1).',
     'C12': ' Further clause (DESIGN 3a): a synchronous burst helper named for a direction validates its jobs with that direction (V11).',
     'C17': ' Further clauses (DESIGN 3a): the per-manager half of the error code never depends on the process-wide half (G7); the session counter is advanced '
            'with a LOCKed read-modify-write (G8).',
